@@ -200,6 +200,20 @@ fn neighbour_request(server: &mut Server, i: u32, observed: &[(u32, Vec<String>,
     crate::blocktransfer::noise_request(server, 3 * (i / observed.len() as u32 + 1), *ep, path, *code);
 }
 
+/// a request on another key by the endpoint that owns the observed transfers, which the handler
+/// has to refuse (a Block1 block far beyond anything buffered, or one whose options alone exceed
+/// the budget): a refusal there is no reason to touch the state of the observed keys
+fn refused_request(server: &mut Server, ep: u32, i: u32, mid: &mut u16) {
+    let seg = format!("r{}", i % 3);
+    let mut r = ReqSpec::new(if i % 2 == 0 { 3 } else { 2 }, &["refused", &seg]);
+    *mid = mid.wrapping_add(1);
+    r.mid = *mid;
+    r.block1 = Some((4000 + i % 50, i % 4 != 3, (i % 3) as u8));
+    r.payload = vec![0x66; 16 << (i % 3)];
+    let mut app = small_app();
+    let _ = server.exchange(&r.bytes(), ep, &mut app);
+}
+
 fn scenario_retention(rep: &mut Report, r: &mut Rng, clock: &Clock, d: Duration, n_other: u32) {
     rep.eval();
     let witness = format!("retention: expiry {:?}, {} intervening requests on other keys, virtual_time={}", d, n_other, clock.virt);
@@ -226,6 +240,9 @@ fn scenario_retention(rep: &mut Report, r: &mut Rng, clock: &Clock, d: Duration,
         for i in 0..n_other {
             clock.advance(slice);
             other_request(&mut server, i + round * 10_000, &mut mid);
+            if i % 5 == 0 {
+                refused_request(&mut server, 1, i / 5 + round, &mut mid);
+            }
             if i % 2 == 1 {
                 neighbour_request(&mut server, i / 2 + round * 500, &[(1, vec!["dl".into()], 1), (1, vec!["ul".into()], 3)]);
             }
